@@ -1571,7 +1571,9 @@ impl Unit {
                     block.stmts.push(st.clone());
                 }
             }
+            let ends_with_value = spec.to_block_end && matches!(block.stmts.last(), Some(Stmt::Expr(_, None)));
             match &spec.yield_ident {
+                _ if ends_with_value => {} // the enclosing block's own tail expression is the slice's result
                 Some(y) => {
                     let ye: Expr = syn::parse_str(y).unwrap_or_else(|_| die("cannot parse //@yield expression"));
                     block.stmts.push(Stmt::Expr(ye, None));
